@@ -17,7 +17,7 @@ typedef struct S TS; TS ts; TS *pts;
 enum E { K1, K2 = 5 } e; enum E e2;
 int f0(void); int f1(int); int g2(int, double); int fv(int, ...); void fvoid(void); double fd(double); int fp1(int *); int fvp(void *); int fcc(const char *); int fs(struct S);
 int (*fp)(int); void (*fpv)(void); int *fpr(void); struct S fst(void);
-int f2p(int, int *); void *lk(const char *, void *); int fv3(int, char *, int *, ...); int g3p(int *, double, struct S *); void cb2(int (*)(int), void (*)(void));
+int fb(_Bool); int f2p(int, int *); void *lk(const char *, void *); int fv3(int, char *, int *, ...); int g3p(int *, double, struct S *); void cb2(int (*)(int), void (*)(void));
 struct fwd; struct fwd *pfw; union ufw; union ufw *pufw; struct fwd { int v; struct fwd *next; union ufw *u; }; union ufw { int k; struct fwd f; };
 typedef int row_t[3]; typedef row_t grid_t[2];
 struct M { double m[4][4]; row_t cell[3]; grid_t gr; struct { int g[2][2]; union { char u[2][2][2]; int w; } iu; } in; char name[8]; struct S as[2]; } ma, mb, *pma;
@@ -108,17 +108,17 @@ def tests():
         "dptr": ["pd", "da", "1 + pd", "i + da", "pd + 1", "&d", "1 + &d", "&da[1]", "&st.o", "1 + &st.o", "pd++"],
     }
     CONS = {
-        "iptr": ["q = %s;", "*(%s);", "*(%s) = 1;", "(%s)[0];", "(%s)[i] = 2;", "fp1(%s);", "fvp(%s);", "(%s) == p;", "p != (%s);", "(%s) - p;", "q - (%s);", "(%s) < q;", "(%s) + 1;", "2 + (%s);", "(%s) - 1;", "vp = %s;", "cp = %s;",
+        "iptr": ["b = %s;", "fb(%s);", "q = %s;", "*(%s);", "*(%s) = 1;", "(%s)[0];", "(%s)[i] = 2;", "fp1(%s);", "fvp(%s);", "(%s) == p;", "p != (%s);", "(%s) - p;", "q - (%s);", "(%s) < q;", "(%s) + 1;", "2 + (%s);", "(%s) - 1;", "vp = %s;", "cp = %s;",
                  "!(%s);", "(%s) ? 1 : 2;", "i ? (%s) : q;", "(%s) && i;", "if (%s) ;", "*pp = %s;", "tp = %s;", "(void *)(%s);", "(long)(%s);", "{ int *lp = %s; lp; }", "{ const int *lc = %s; lc; }", "{ void *lv = %s; lv; }",
                  "sizeof *(%s);", "&*(%s);", "&(%s)[1];", "i = *(%s) + 1;", "i = (%s)[1] * 2;", "f1(*(%s));", "f1((%s)[0]);", "RET:int *", "RET:void *", "RET:const int *", "RET:_Bool"],
         "int": ["i = %s;", "a[%s];", "(%s) << 1;", "(%s) % 2;", "switch (%s) { default: ; }", "~(%s);", "p + (%s);", "(%s) + p;", "p - (%s);", "p[%s];", "f1(%s);", "c = %s;", "ul = %s;", "d = %s;", "b = %s;", "e = %s;", "(%s) & 1;",
                 "-(%s);", "!(%s);", "(%s) == 1;", "(%s) ? 1 : 2;", "if (%s) ;", "(%s) * 1.5;", "{ int li = %s; li; }", "{ long ll2 = %s; ll2; }", "fv(1, %s);", "i += %s;", "i <<= %s;", "(char)(%s);", "RET:int", "RET:long", "RET:double"],
         "flt": ["d = %s;", "f = %s;", "i = %s;", "(%s) * 2;", "-(%s);", "(%s) < 1;", "fd(%s);", "g2(1, %s);", "!(%s);", "(%s) ? 1 : 2;", "(int)(%s);", "d += %s;", "(%s) + i;", "{ double lq = %s; lq; }", "if (%s) ;", "(%s) / d;", "RET:double", "RET:int", "RET:float"],
         "struct": ["st2 = %s;", "(%s).m;", "(%s).o + 1;", "(%s).arr[0];", "fs(%s);", "ts = %s;", "*pts = %s;", "(void)(%s);", "sizeof(%s);", "{ struct S lz = %s; lz; }", "{ TS lz = %s; lz; }", "(%s).next->m;", "i = (%s).m;", "RET:struct S", "RET:TS"],
-        "sptr": ["pts = %s;", "(%s)->m;", "(%s)->o = 1;", "(*(%s)).n;", "(%s)[0].m;", "(%s)->next->m;", "(%s)->arr[1];", "fvp(%s);", "(%s) == ps;", "(%s) - ps;", "(%s) + 1;", "1 + (%s);", "vp = %s;", "st = *(%s);", "!(%s);", "(%s) ? 1 : 2;",
+        "sptr": ["b = %s;", "fb(%s);", "pts = %s;", "(%s)->m;", "(%s)->o = 1;", "(*(%s)).n;", "(%s)[0].m;", "(%s)->next->m;", "(%s)->arr[1];", "fvp(%s);", "(%s) == ps;", "(%s) - ps;", "(%s) + 1;", "1 + (%s);", "vp = %s;", "st = *(%s);", "!(%s);", "(%s) ? 1 : 2;",
                  "{ struct S *lz = %s; lz; }", "{ TS *lz = %s; lz; }", "st.next = %s;", "&(%s)->m;", "p = &(%s)->m;", "p = (%s)->arr;", "RET:struct S *", "RET:TS *", "RET:void *"],
-        "cptr": ["ccp = %s;", "*(%s);", "(%s)[0];", "fcc(%s);", "fvp(%s);", "(%s) == pc;", "(%s) - pc;", "(%s) + 1;", "cvp = %s;", "i = *(%s);", "c = (%s)[1];", "{ const char *lz = %s; lz; }", "!(%s);", "RET:const char *", "RET:const void *"],
-        "dptr": ["pd = %s;", "*(%s);", "(%s)[0];", "*(%s) = 1.5;", "d = *(%s) * 2;", "fvp(%s);", "(%s) == pd;", "(%s) - pd;", "vp = %s;", "{ double *lz = %s; lz; }", "fd(*(%s));", "RET:double *", "RET:void *"],
+        "cptr": ["b = %s;", "fb(%s);", "ccp = %s;", "*(%s);", "(%s)[0];", "fcc(%s);", "fvp(%s);", "(%s) == pc;", "(%s) - pc;", "(%s) + 1;", "cvp = %s;", "i = *(%s);", "c = (%s)[1];", "{ const char *lz = %s; lz; }", "!(%s);", "RET:const char *", "RET:const void *"],
+        "dptr": ["b = %s;", "fb(%s);", "pd = %s;", "*(%s);", "(%s)[0];", "*(%s) = 1.5;", "d = *(%s) * 2;", "fvp(%s);", "(%s) == pd;", "(%s) - pd;", "vp = %s;", "{ double *lz = %s; lz; }", "fd(*(%s));", "RET:double *", "RET:void *"],
     }
     for cls in PROD:
         for e in PROD[cls]:
